@@ -326,6 +326,8 @@ impl Node {
         old_fts_str: &Option<String>,
         node_fts_str: &Option<String>,
     ) -> std::result::Result<(), rusqlite::Error> {
+        #[cfg(feature = "verif")]
+        crate::verif_hooks::failpoint_err("node_write")?;
         static UPDATE_FTS_QUERY: &str = "INSERT INTO _node_fts (rowid, text) VALUES (?, ?)";
         if let Some(id) = self._local_id {
             if index {
